@@ -393,6 +393,11 @@ pub fn gen_table1(rng: &mut Rng, u: &Universe, fb: &FontBase) -> Table1 {
                 .collect();
             recs.push(FeatRec { tag, first_new, maps });
         }
+        if recs.len() > 1 && rng.chance(1, 12) {
+            // not sorted by tag (the specification requires sorted records):
+            // only the metamorphic oracles apply
+            recs.reverse();
+        }
         Some(recs)
     } else {
         None
